@@ -91,6 +91,7 @@ type vfC02World struct {
 	ks          string
 	dbName      string
 	defaultColl bool
+	conflicts   bool // documents may carry conflicting live branches (data written under allow_conflicts, e.g. before an upgrade)
 	docs        []*vfC02Doc
 	nMarker     int
 	nDigest     int
@@ -264,16 +265,24 @@ func vfC02NewWorld(t *testing.T, rt *rapid.T) (w *vfC02World, err error) {
 	}()
 	w = &vfC02World{t: t, classes: map[string]bool{}, revByMarker: map[string]*vfC02Rev{}, attByMarker: map[string]*vfC02Att{}, docByMarker: map[string]*vfC02Doc{}}
 	w.defaultColl = rapid.Bool().Draw(rt, "defaultCollection")
-	cfg := &RestTesterConfig{SyncFn: vfC02SyncFn, AllowConflicts: true, GuestEnabled: false}
+	w.conflicts = rapid.IntRange(0, 3).Draw(rt, "conflicts") != 0
+	cfg := &RestTesterConfig{SyncFn: vfC02SyncFn, GuestEnabled: false}
 	if w.defaultColl {
 		w.rt = NewRestTesterDefaultCollection(t, cfg)
 	} else {
 		w.rt = NewRestTester(t, cfg)
 	}
+	if w.conflicts {
+		// allow_conflicts can no longer be configured (a database config that sets it is refused), but
+		// documents with conflicting live branches written by earlier versions are still served by the
+		// same read paths; the write phase of such a world runs with the switch the repository's own
+		// tests use, and it is switched back before the probe phase.
+		w.rt.GetDatabase().EnableAllowConflicts(t)
+	}
 	w.dbName = w.rt.GetDatabase().Name
 	w.ks = w.rt.GetSingleKeyspace()
 	w.known13 = kit.Known("C02", vfC02SigAtt)
-	w.logf("collection=%s", map[bool]string{true: "default", false: "named"}[w.defaultColl])
+	w.logf("collection=%s conflicts=%v", map[bool]string{true: "default", false: "named"}[w.defaultColl], w.conflicts)
 	ds := w.rt.GetSingleDataStore()
 	r := w.send("", "PUT", "/"+w.dbName+"/_role/rA", GetRolePayload(t, "", ds, []string{"A"}), nil)
 	if r.Code != 201 {
@@ -565,6 +574,12 @@ func (w *vfC02World) step(rt *rapid.T) error {
 	}
 	switch action {
 	case "update", "branch":
+		if action == "branch" && !w.conflicts {
+			// conflict-free mode admits one kind of second branch: a disconnected root over a deleted document
+			if !d.Winner.Deleted {
+				action = "update"
+			}
+		}
 		if action == "update" {
 			wr.parent = d.Winner
 			if d.Winner.Deleted {
@@ -572,18 +587,24 @@ func (w *vfC02World) step(rt *rapid.T) error {
 			}
 		} else {
 			var cands []*vfC02Rev
-			for _, r := range d.Revs {
-				if !r.Deleted {
-					cands = append(cands, r)
+			if w.conflicts {
+				for _, r := range d.Revs {
+					if !r.Deleted {
+						cands = append(cands, r)
+					}
 				}
 			}
-			if len(cands) == 0 {
-				wr.parent = d.Winner
+			// index len(cands) = a disconnected new root
+			if k := rapid.IntRange(0, len(cands)).Draw(rt, "parent"); k < len(cands) {
+				wr.parent = cands[k]
 			} else {
-				wr.parent = cands[rapid.IntRange(0, len(cands)-1).Draw(rt, "parent")]
+				w.classes["second-root"] = true
 			}
 		}
-		gen := wr.parent.Gen + 1
+		gen := 1
+		if wr.parent != nil {
+			gen = wr.parent.Gen + 1
+		}
 		// will the new (live) revision be the winner? certain when no other live leaf reaches its generation
 		maxOther, tie := 0, false
 		for _, l := range d.liveLeaves() {
@@ -598,7 +619,7 @@ func (w *vfC02World) step(rt *rapid.T) error {
 			}
 		}
 		wr.transport = "noedits"
-		if !wr.parent.HasKids && !tie && rapid.Bool().Draw(rt, "viaPut") {
+		if wr.parent != nil && !wr.parent.HasKids && !tie && rapid.Bool().Draw(rt, "viaPut") {
 			wr.transport = "put"
 		}
 		willWin, certain := gen > maxOther, !tie
@@ -615,7 +636,7 @@ func (w *vfC02World) step(rt *rapid.T) error {
 			}
 		}
 		w.genContent(rt, wr, willWin, certain)
-		if wr.parent.HasKids || wr.parent != d.Winner {
+		if wr.parent == nil || wr.parent.HasKids || wr.parent != d.Winner {
 			w.classes["branch"] = true
 		}
 	case "tombstone":
@@ -640,6 +661,7 @@ func (w *vfC02World) step(rt *rapid.T) error {
 // each user may see.
 func (w *vfC02World) finish() error {
 	dbc := w.rt.GetDatabase()
+	dbc.Options.AllowConflicts = nil
 	seq, err := dbc.LastSequence(w.rt.Context())
 	if err != nil {
 		return vfC02Infra{"last sequence: " + err.Error()}
